@@ -130,7 +130,23 @@ K_READ_IO = dict(name="K-core::ctl_io", package="rustzx-core", features="full",
                      "configuration and device state; the clock dimension of the floating bus is the Verus contract of floating_bus_value"],
                  timeout=3000)
 
+K_INPUT = dict(name="K-core::input", package="rustzx-core", features="full",
+               harnesses=["key_table_and_send_key", "sinclair_table_and_send", "compound_keys", "kempston_joy", "kempston_mouse"],
+               functions={"key_table_and_send_key": ["ZXKey::row_id", "ZXKey::mask", "ZXKey::half_port", "ZXController::send_key"],
+                          "sinclair_table_and_send": ["sinclair_event_to_zx_key", "ZXController::send_sinclair_key"],
+                          "compound_keys": ["CompoundKey::modifier_mask/modifier_key/primary_key", "ZXController::send_compound_key"],
+                          "kempston_joy": ["KempstonJoy::key", "KempstonJoy::read"],
+                          "kempston_mouse": ["KempstonMouse::send_button", "KempstonMouse::send_wheel", "KempstonMouse::send_pos_diff", "KempstonMouse::default"]},
+               assumptions=CORE_ASSUME + ["libm::sqrt stubbed while constructing the controller (AY pan gains only)"])
+
 PROPS = {
+    "C17": dict(
+        level="proof",
+        claim="Kani proofs (bit-precise, complete over the finite domains: 40 keys, 2x5 Sinclair controls, 7 compound keys, 8 Kempston bits, 4 mouse buttons, all i8 deltas, all prior matrix states) that every event operation changes exactly its own source's matrix bit / counter as the statement says, preserves the compound-key invariant (CAPS SHIFT held iff some compound key is held), and that the ULA read ANDs all three sources over the selected half-rows; histories follow by induction over these per-event obligations.",
+        note="Known finding: Sinclair joystick 2 DOWN maps to key 2 (pinned by an existing test, so recorded, not repaired). Assumes Kani stubs (sqrt; mixer/screen no-ops in the port-read harness). Emulator::send_* wrappers are one-line forwards (not separately contracted).",
+        kani=[K_INPUT, K_READ_IO],
+        explanation="input devices as per-event contracts + row-AND obligation of read_io",
+    ),
     "C06": dict(
         level="proof",
         claim="Deductive proof (Verus, all addresses/values/latch histories by invariant induction) that ZXMemory read/write implement the (page,offset) view, that a write is read back through exactly the windows mapping the same bank, that ROM windows ignore writes, and that write_7ffd maintains the paging invariant map = f(machine, latch) with the lock bit; syntactic frame obligations pin the only callers of remap and the only writers of the latch.",
